@@ -16,7 +16,7 @@ class Boom(Exception):
     pass
 
 
-def step_fn(kind, form, max_extra, inner_depth):
+def step_fn(kind, form, max_extra, inner_depth, with_reentry=False):
     import z3
     import funsor
     import funsor.interpreter as IP
@@ -100,6 +100,23 @@ def step_fn(kind, form, max_extra, inner_depth):
         IP._STACK[:] = SAVED
         try:
             depth = choose("depth", max_extra + 1)
+            interp = None
+            if with_reentry and kind != "memoize" and form != "memoize()":
+                # the SAME interpretation object may have been entered (and left, normally or by exception) before,
+                # under a different enclosing context: nothing of that earlier entry may leak into this one
+                reenter = 1 + choose("reenter", 2)      # 1 = used before and left normally, 2 = left by exception
+                if reenter:
+                    interp = make(kind)
+                    first_pre = choose("first_pre", TOTAL_KINDS)
+                    IP._STACK.append(make(KINDS[first_pre]))
+                    try:
+                        with interp:
+                            Variable("x", Real) + Number(2.0)
+                            if reenter == 2:
+                                raise Boom()
+                    except Boom:
+                        pass
+                    IP._STACK.pop()
             pre_kinds = []
             for d in range(depth):
                 k = choose("pre%d" % d, TOTAL_KINDS)
@@ -107,7 +124,8 @@ def step_fn(kind, form, max_extra, inner_depth):
                 IP._STACK.append(make(KINDS[k]))
             pre = list(IP._STACK)
             raise_at = choose("raise_at", 4)     # 0..2 = position in body, 3 = no exception
-            interp = make(kind)
+            if interp is None:
+                interp = make(kind)
             seen = {}
 
             def body():
@@ -175,8 +193,8 @@ def step_fn(kind, form, max_extra, inner_depth):
 
 def worker(inst):
     from symx import engine
-    kind, form, max_extra, inner_depth = inst
-    step = step_fn(kind, form, max_extra, inner_depth)
+    kind, form, max_extra, inner_depth = inst[:4]
+    step = step_fn(kind, form, max_extra, inner_depth, with_reentry=len(inst) > 4 and inst[4] == "reentry")
     out = dict(status="ok", label=str(inst), detail="", paths=0, nontrivial=True, obligations=0, discharged=0)
     try:
         paths = engine.explore(step, max_paths=20000)
@@ -210,11 +228,14 @@ def main():
             if tier == "quick":
                 insts.append((k, f, 1, 2 if k == "user_partial" and f == "with" else 1))
             else:
-                insts.append((k, f, 2, 2))
-                insts.append((k, f, 3, 1))
+                insts.append((k, f, 2, 1))
+                if k in ("user_partial", "adjoint", "memoize"):
+                    insts.append((k, f, 1, 2))
+            if k != "memoize" and f != "memoize()":
+                insts.append((k, f, 1 if tier == "quick" else 2, 0, "reentry"))
     chk.map("checks.c17", "worker", insts, chunksize=1)
-    chk.bounds = dict(pre_stack_extra_entries="<=1 (quick) / <=3", kinds=KINDS, forms=FORMS, exception_positions=4,
-                      nested_blocks_depth="1 (quick) / 2", induction="one step from an arbitrary valid pre-stack; nested blocks unrolled as cross-check")
+    chk.bounds = dict(pre_stack_extra_entries="<=1 (quick) / <=2", reentry="the same interpretation object entered before under another enclosing context (left normally / by exception)", kinds=KINDS, forms=FORMS, exception_positions=4,
+                      nested_blocks_depth="1-2", induction="one step from an arbitrary valid pre-stack; nested blocks unrolled as cross-check")
     chk.assumptions = ["exits are properly nested (the property's precondition)", "instrument.DEBUG mode not covered",
                        "solver work = feasibility of the symbolic choices (depth, kinds, raise position); assertion checks are concrete per path"]
     chk.extra_cov = dict(states=sum(o.get("paths", 0) for o in chk.outcomes), transitions=sum(o.get("paths", 0) for o in chk.outcomes),
